@@ -88,12 +88,15 @@ type c17Case struct {
 	Probes   []int64  `json:"probes_ns"`
 	FwdFlips []int64  `json:"forwarding_flips_ns"`
 	StopNS   int64    `json:"stop_ns"`
+	StateErr []int64  `json:"state_failure_toggles_ns"` // the State's forwarding read starts / stops failing at these instants
+	Autoconf []bool   `json:"autoconf"`                 // kernel autoconf value per interface (cyclic)
 }
 
 type c17Probe struct {
 	At       time.Duration
 	Prepared map[string]bool
 	Fwd      map[string]bool
+	StateBad bool
 	Scrape   map[string]map[string]float64
 	ScrapeErr error
 	Panic    string
@@ -148,6 +151,9 @@ func c17Prop(t *testing.T, k *verifkit.Kit) func(c c17Case) error {
 					ifi.Plugins[j] = &vkPlug{Plugin: ifi.Plugins[j], st: &st, mu: &mu, prepared: prepared[ifi.Name], w: w.now}
 				}
 				w.fwd[ifi.Name] = st.Fwd
+				if len(c.Autoconf) > 0 {
+					w.autoc[ifi.Name] = c.Autoconf[i%len(c.Autoconf)]
+				}
 			}
 			ifaces = cfg.Interfaces
 			// as cmd/corerad/main.go wires it: the same config.Interface values everywhere
@@ -198,6 +204,9 @@ func c17Prop(t *testing.T, k *verifkit.Kit) func(c c17Case) error {
 			for _, x := range c.Probes {
 				evs = append(evs, tev{x, 2})
 			}
+			for _, x := range c.StateErr {
+				evs = append(evs, tev{x, 3})
+			}
 			sort.SliceStable(evs, func(i, j int) bool { return evs[i].at < evs[j].at })
 			for _, e := range evs {
 				if d := time.Duration(e.at) - w.now(); d > 0 {
@@ -212,8 +221,20 @@ func c17Prop(t *testing.T, k *verifkit.Kit) func(c c17Case) error {
 					for _, ifi := range cfg.Interfaces {
 						w.setForwarding(ifi.Name, !w.forwarding(ifi.Name))
 					}
+				case 3:
+					w.mu.Lock()
+					if w.fwdErr == nil {
+						w.fwdErr = fmt.Errorf("verif: injected State read failure")
+					} else {
+						w.fwdErr = nil
+					}
+					w.events = append(w.events, fmt.Sprintf("%v state failing=%v", w.now(), w.fwdErr != nil))
+					w.mu.Unlock()
 				case 2:
 					p := c17Probe{At: w.now(), Prepared: map[string]bool{}, Fwd: map[string]bool{}}
+					w.mu.Lock()
+					p.StateBad = w.fwdErr != nil
+					w.mu.Unlock()
 					mu.Lock()
 					for n, v := range prepared {
 						p.Prepared[n] = *v >= 0 && *v < p.At // a Prepare at this very instant may be in progress
@@ -401,6 +422,18 @@ func c17Prop(t *testing.T, k *verifkit.Kit) func(c c17Case) error {
 				}
 				exps = append(exps, e)
 			}
+			if p.StateBad {
+				if p.ScrapeErr == nil || p.APICode == 200 {
+					advertising := false
+					for _, e := range exps {
+						advertising = advertising || e.ri.Advertise
+					}
+					if p.ScrapeErr == nil || (advertising && p.APICode == 200) {
+						return verifkit.Violf("C17/state-failure-hidden", "probe at %v: the forwarding state cannot be read, yet scrape error=%v API status=%d\n%s", p.At, p.ScrapeErr, p.APICode, text)
+					}
+				}
+				continue // reported as an error, no crash: fine
+			}
 			if ambiguous || !allReady {
 				continue // an error (not a crash) is the acceptable alternative before initialisation
 			}
@@ -439,7 +472,15 @@ func c17Prop(t *testing.T, k *verifkit.Kit) func(c c17Case) error {
 				put(ifiAdvertising, n, b2f(e.ri.Advertise))
 				put(ifiMonitoring, n, b2f(e.ri.Monitor))
 				put(ifiForwarding, n, b2f(p.Fwd[n]))
-				put(ifiAutoconfiguration, n, 1)
+				auto := true
+				if len(c.Autoconf) > 0 {
+					for i, ri := range ref.Cfg.Interfaces {
+						if ri.Name == n {
+							auto = c.Autoconf[i%len(c.Autoconf)]
+						}
+					}
+				}
+				put(ifiAutoconfiguration, n, b2f(auto))
 				if e.ra == nil {
 					continue
 				}
@@ -657,12 +698,20 @@ func c17Gen(t *rapid.T) c17Case {
 	for i, n := 0, rapid.IntRange(0, 2).Draw(t, "nflips"); i < n; i++ {
 		c.FwdFlips = append(c.FwdFlips, rapid.Int64Range(0, 12*s).Draw(t, "flip"))
 	}
+	if rapid.IntRange(0, 3).Draw(t, "statefail") == 0 {
+		a := rapid.Int64Range(0, 10*s).Draw(t, "failfrom")
+		c.StateErr = []int64{a, a + rapid.Int64Range(1, 4*s).Draw(t, "failfor")}
+	}
+	c.Autoconf = rapid.SliceOfN(rapid.Bool(), 0, 3).Draw(t, "autoconf")
 	c.Probes = []int64{0}
 	for i, n := 0, rapid.IntRange(1, 5).Draw(t, "nprobes"); i < n; i++ {
 		c.Probes = append(c.Probes, rapid.SampledFrom([]int64{1, 250 * int64(time.Millisecond), s, 3 * s, 8*s + 1, 12 * s}).Draw(t, "probe")+rapid.Int64Range(0, 999).Draw(t, "jitter"))
 	}
 	if c.UpAtNS >= 0 {
 		c.Probes = append(c.Probes, c.UpAtNS, c.UpAtNS+1)
+	}
+	if len(c.StateErr) > 0 {
+		c.Probes = append(c.Probes, c.StateErr[0]+1, c.StateErr[1]+1)
 	}
 	c.StopNS = 13 * s
 	return c
